@@ -38,6 +38,7 @@ type LoopAnn struct {
 	Unroll int
 	Invs   []string // names of invariant functions
 	Decr   string   // name of the variant function (int-valued), optional
+	Bounded  bool     // unroll N bounded: executions with more iterations are not covered (stated in the evidence)
 	Modifies []string // local variables (slices, pointers, maps) whose referents the loop body may write
 }
 
@@ -101,7 +102,7 @@ func readDirectives(dir string) ([]*Directive, []string, error) {
 				}
 			}
 			switch d.Kind {
-			case "verify", "lemma", "bounded", "loop", "opaque", "global", "assume":
+			case "verify", "lemma", "bounded", "loop", "opaque", "global", "assume", "structural":
 			default:
 				fh.Close()
 				return nil, nil, fmt.Errorf("%s:%d: unknown directive %q", fn, ln, d.Kind)
